@@ -8,7 +8,7 @@ The model starts from `init`, is brought to `obs0` by evaluator events, then for
 step runs `handle` (lines starting with `!` are harness actions: no command) and is
 brought to the step's observation by evaluator events (`applyEvent` must allow them:
 a suspended thread does not move, names only change when a thread ran).
-Result: `<class>,<class>… <class of a following status>`.
+Result: `R:<class>,<class>… <class of a following status>`.
 -/
 namespace Ecal.Drv.C16
 open Ecal.Drv Ecal.DebugCmd
@@ -171,7 +171,7 @@ def runConc : String := Id.run do
 
 def runCase (payload : String) : String :=
   match payload.splitOn " " with
-  | "conc" :: _ => runConc ++ "\tnt=1"
+  | "conc" :: _ => "R:" ++ runConc ++ "\tnt=1"
   | _ :: _ :: "?" :: _ => "RECORD-TIMEOUT"
   | _scn :: gs :: o0 :: steps =>
     match parseObs o0, steps.mapM parseStep with
@@ -182,7 +182,7 @@ def runCase (payload : String) : String :=
           | some c => (lookupCmd c).isSome
           | none => false
         | none => false
-      a ++ (if nt then "\tnt=1" else "")
+      "R:" ++ a ++ (if nt then "\tnt=1" else "")
     | _, _ => "bad-payload"
   | _ => "bad-payload"
 
